@@ -3,7 +3,7 @@ sys.path.insert(0, os.path.dirname(os.path.abspath(__file__)))
 import seqfam, vlib
 
 WIN = os.path.join(vlib.VERIF, "spec", "win")
-ASSUME = ["STATETTL unset", "single producer, lock-step replay", "predicates compare aggregates (count, sum, avg, min, max) with numeric literals, combined with AND / OR (AND binds tighter)",
+ASSUME = ["STATETTL unset, except in the scenarios that keep a group active across several TTL periods (a trace in which the driver itself paused longer than 0.7 TTL is void)", "single producer, lock-step replay", "predicates compare aggregates (count, sum, avg, min, max) with numeric literals, combined with AND / OR (AND binds tighter)",
           "values are small integers, NULL or missing"]
 NUL = -999
 MENU = {  # model predicate name -> (SQL text, AST)
@@ -15,6 +15,9 @@ MENU = {  # model predicate name -> (SQL text, AST)
 }
 MENU["count>=3|max>=3"] = ("COUNT(*) >= 3 OR MAX(v) >= 3", {"o": "or", "a": dict(MENU["count>=2"][1], lit=3), "b": MENU["max>=3"][1]})
 MENU["count>=2&min<0"] = ("COUNT(*) >= 2 AND MIN(v) < 0", {"o": "and", "a": MENU["count>=2"][1], "b": MENU["min<0"][1]})
+MENU["max>=3|count>=3"] = ("MAX(v) >= 3 OR COUNT(*) >= 3", {"o": "or", "a": MENU["max>=3"][1], "b": dict(MENU["count>=2"][1], lit=3)})
+MENU["min<0&count>=2"] = ("MIN(v) < 0 AND COUNT(*) >= 2", {"o": "and", "a": MENU["min<0"][1], "b": MENU["count>=2"][1]})
+MENU["sum>3|count>=3"] = ("SUM(v) > 3 OR COUNT(*) >= 3", {"o": "or", "a": MENU["sum>3"][1], "b": dict(MENU["count>=2"][1], lit=3)})
 MENU["count>=3|max>=3&min<0"] = ("COUNT(*) >= 3 OR MAX(v) >= 3 AND MIN(v) < 0",
                                  {"o": "or", "a": dict(MENU["count>=2"][1], lit=3), "b": {"o": "and", "a": MENU["max>=3"][1], "b": MENU["min<0"][1]}})
 SELECTS = [  # (select list, aggs) : with / without the trigger's aggregates among the selected ones
@@ -82,8 +85,23 @@ def run(tier):
         L = rng.choice([8, 12, 20])
         groups = ["a", "b", "c", "d"][:rng.choice([1, 2, 4])]
         hist = [{"g": rng.choice(groups), "v": rng.choice([NUL, -1, -1, 0, 1, 2, 3, 5])} for _ in range(L)]
+        if pred in ("max>=3|count>=3", "sum>3|count>=3"):      # see GlobalWin.LeftNullable: NULL values only in the model-generated behaviours
+            for h in hist:
+                if h["v"] == NUL:
+                    h["v"] = 1
         scen.append(scenario(pred, hist, rng.randrange(len(SELECTS)), rng, "mix", "upper"))
+    # STATETTL: a group that keeps receiving rows (gaps well below the TTL) is never reaped, however long it takes to fire
+    for _ in range(4 if quick else 24):
+        ng = rng.choice([1, 2])
+        need = rng.choice([7, 8, 9])
+        hist = [{"g": "ab"[i % ng], "v": rng.choice([1, 2, 3])} for i in range(need * ng)]
+        sc = scenario("count>=2", hist, 0, rng, "mix", "upper")
+        sc["sql"] = sc["sql"].replace("COUNT(*) >= 2", "COUNT(*) >= %d" % need) + " WITH (STATETTL='1s')"
+        sc["meta"]["pred"] = lit_scaled(dict(MENU["count>=2"][1], lit=need))
+        sc.update(gap_ms=rng.choice([180, 250]) if ng == 2 else rng.choice([300, 400]), ttl_ms=1000, span=ng)
+        scen.append(sc)
     seqfam.run_scenarios(res, scen, "TraceBatch", tag="global")
+    seqfam.run_pinned(res, "TraceBatch")
     res.cov["distinct_nontrivial"] = len({json.dumps(s["rows"], sort_keys=True) + s["sql"] for s in scen})
     res.cov["rule"] = ("every row sequence (2 groups x values {NULL,-1,1,3}) of the TLA+ GlobalWin model up to the stated length for each of 8 predicates "
                        "(single comparisons, AND, OR, OR-of-AND), 3 SELECT shapes (trigger aggregates selected / not selected / differently spelled), NULL vs missing, "
